@@ -16,7 +16,7 @@ PROPS = {
     "C03": {"inv": ["FixedPoint"], "props": ["WriteOnce", "InputsOnlyAdded"]},
     "C04": {"inv": ["ClosureComplete", "ClosureSound", "EqualsDenotation"], "props": []},
     "C05": {"inv": ["EqualsDenotation", "AbortIsDenoted", "DoneMeansNoAbort"], "props": []},
-    "C06": {"inv": ["NoLostWaiter", "NoEarlyRelease", "QueueSolving", "AskAtMostOnce", "EvalBound", "LoadBound", "NoRepeatWait"],
+    "C06": {"inv": ["NoLostWaiter", "NoEarlyRelease", "QueueSolving", "AskAtMostOnce", "EvalBound", "EnqBound", "LoadBound", "NoRepeatWait"],
             "props": ["Terminates"], "ghost": True},
     "C13": {"inv": ["AskOnlyDemandedMissing", "UnreadNotRequired"], "props": ["NoAskAfterRefusal"]},
 }
@@ -29,7 +29,7 @@ def owner_of(err):
     e = err
     if e.startswith("ask:") or "refused flag" in e:
         return "C13"
-    if e.startswith("drain:") or "queue" in e or "tracker" in e or "dependencies" in e or "NoLostWaiter" in e \
+    if e.startswith("drain:") or "queue" in e or "tracker" in e or "dependencies" in e or "NoLostWaiter" in e or "solving set" in e \
             or "NoEarlyRelease" in e or "Shape" in e or "schedule allows" in e or "returned in phase" in e \
             or "work bound" in e:
         return "C06"
@@ -155,6 +155,7 @@ def scenarios_for(prog, x, rng, per_prog):
         part[rng.choice(inputs)] = "bad"
     pk = ("F", tuple(sorted(part.items())))
     out.append(dict(cfg0=dict(part), answers={}, prompt=False, sched="nat", req=None, key=pk))
+    out.append(dict(cfg0={i: rng.choice(["0", "1"]) for i in inputs}, answers={}, prompt=False, sched="nat", req=None, key=None, whatif=True))
     out.append(dict(cfg0=dict(part), answers={}, prompt=False, sched="rnd", req="shuffle", key=pk))
     # the user stops answering at prompt k: refuses, input ends, or types rubbish
     total = {i: rng.choice(["0", "1"]) for i in inputs}
@@ -185,9 +186,29 @@ def real_runs(programs, rng, per_prog, snap="full"):
                 rng.shuffle(request)
             meta = {"prog": prog["id"], "cfg0": cfg0, "answers": answers, "prompt": has_prompt, "at": sc.get("at"), "sched": sched, "request": request}
             trace, res, solver = runs.run_traced(forms, runs.make_config(cfg0), request, prog["fieldNames"], user=user,
-                                                 chooser=chooser, mode="prog", snap=snap, tid=tid, body=x["body"], meta=meta)
+                                                 chooser=chooser, mode="prog", snap=snap, tid=tid, body=x["body"], meta=meta, max_events=2000,
+                                                 names=list(x["formOf"].keys()))
             traces.append(trace)
+            if trace.get("overflow"):
+                continue              # no terminal observation: the trace itself is rejected (work bound)
             obs.append(observe(trace, res, solver, prog, tid, cfg0, meta))
+            if sc.get("whatif") and not trace.get("overflow"):
+                # a second solve on the SAME input store after the user changed an input that the first solve read
+                read = sorted(set(n for ev in trace["events"] if ev["ev"] == "attempt" for (k3, n, _d) in ev["reads"] if k3 == "in"))
+                if read:
+                    name = rng.choice(read)
+                    store = solver._i
+                    store[name] = "1" if store.config.get(*name.split(".", 1)).strip() == "0" else "0"
+                    tid += 1
+                    cfg2 = dict(cfg0)
+                    cfg2[name] = store.config.get(*name.split(".", 1))
+                    meta2 = dict(meta)
+                    meta2.update({"whatif": name, "cfg0": cfg2})
+                    t2, r2, s2 = runs.run_traced(forms, None, request, prog["fieldNames"], user=None, chooser=None, mode="prog", snap=snap, tid=tid,
+                                                 body=x["body"], meta=meta2, max_events=2000, names=list(x["formOf"].keys()), store=store)
+                    traces.append(t2)
+                    if not t2.get("overflow"):
+                        obs.append(observe(t2, r2, s2, prog, tid, cfg2, meta2))
             if key is not None:
                 # aborts are compared as a class: which of several reachable aborts is hit first depends on the order
                 canon = json.dumps(res if res["abort"] == "" else {"abort": "some"}, sort_keys=True)
@@ -307,6 +328,9 @@ def run(pid, tier):
     # the same properties on the shipped forms and on the repository's own tests
     import real_checks
     real_checks.run(pid, tier, rep, cov, owner_of)
+    if pid == "C06":
+        import tracker_checks
+        tracker_checks.run(tier, rep, cov)
     assumptions = ["generated programs are a seeded sample, not all programs; values are 0/1",
                    "the tracer observes the solver through wrappers on its methods (harness/tracer.py)",
                    "natural order of names computed by harness/natsort.py"]
